@@ -82,6 +82,8 @@ fn vk_mmpermission_bits() {
     let p = MMPermissions::from_bits_retain(kani::any());
     let q = MMPermissions::from_bits_retain(kani::any());
     assert!(p.contains(q) == (p.bits() & q.bits() == q.bits()));
+    assert!(p.intersects(q) == (p.bits() & q.bits() != 0));
+    assert!((p | q).bits() == p.bits() | q.bits());
 }
 
 #[kani::proof]
